@@ -43,7 +43,13 @@ func (cs corruptsim) Gen(prop, tier string, ts *sim.Tapes) *Case {
 	// the last write activity must be a successful commit
 	prog.Steps = append(prog.Steps, work.Step{Kind: "tx", Tx: &work.Txn{Mode: "update", End: "commit", Ops: []work.Op{
 		{Kind: "mkbi", Key: "last"}, {Kind: "nextseq", Path: []string{"last"}}}}})
-	return &Case{Prop: prop, Engine: cs.Name(), Tier: tier, Seed: ts.Seed, Run: ts.Run, Prog: prog, Tapes: map[string][]uint64{}, Params: map[string]int{"foreign": foreign}}
+	c := &Case{Prop: prop, Engine: cs.Name(), Tier: tier, Seed: ts.Seed, Run: ts.Run, Prog: prog, Tapes: map[string][]uint64{}, Params: map[string]int{"foreign": foreign}}
+	if prop == "C11" && ts.Run%4 == 3 {
+		// the cleanly written file is a hot backup (Tx.WriteTo) of the history's end state: its two meta pages
+		// carry txid N and N-1 and describe the same content
+		c.Params["backup_source"] = 1
+	}
+	return c
 }
 
 // build runs the history and returns the file image at rest plus the model
@@ -81,6 +87,26 @@ func (cs corruptsim) build(c *Case, dir string, out *Outcome) (img []byte, e *wo
 	if err != nil {
 		out.HarnessErr = err.Error()
 		return nil, nil, false
+	}
+	if c.Params["backup_source"] == 1 {
+		db, oerr := bolt.Open(path, 0600, &bolt.Options{ReadOnly: true})
+		if oerr != nil {
+			out.HarnessErr = oerr.Error()
+			return nil, nil, false
+		}
+		var buf bytes.Buffer
+		verr := db.View(func(tx *bolt.Tx) error { _, werr := tx.WriteTo(&buf); return werr })
+		_ = db.Close()
+		if verr != nil {
+			out.HarnessErr = verr.Error()
+			return nil, nil, false
+		}
+		img = buf.Bytes()
+		// both meta pages of the copy describe the copied state
+		if e.LastTxid > 0 {
+			e.Versions[e.LastTxid-1] = e.Versions[e.LastTxid]
+		}
+		out.probe("source-is-hot-backup", 1)
 	}
 	return img, e, true
 }
@@ -156,6 +182,22 @@ func tryOpen(path string, e *work.Exec, o *bolt.Options, doCheck bool) (r openRe
 }
 
 func (cs corruptsim) runMeta(c *Case, dir string, img []byte, e *work.Exec, out *Outcome) {
+	// the premise: a cleanly written file (at rest after a successful commit, or a hot backup) has two valid meta
+	// pages - otherwise "the other meta page" is not there to fall back on
+	if im0, lerr := dec.Load(img); lerr == nil {
+		for mi := 0; mi < 2; mi++ {
+			if !im0.Metas[mi].Valid {
+				what := "file at rest after a successful commit"
+				if c.Params["backup_source"] == 1 {
+					what = "hot backup written by Tx.WriteTo"
+				}
+				out.Viol = append(out.Viol, &work.Violation{Prop: "C11", Class: "cleanly-written-file-has-invalid-meta",
+					Msg: fmt.Sprintf("%s: meta page %d does not validate (%s) before anything was damaged: one damaged byte in the other meta page then makes the file unopenable", what, mi, im0.Metas[mi].Why)})
+				out.Evals++
+				return
+			}
+		}
+	}
 	path := filepath.Join(dir, "dmg")
 	defer os.Remove(path)
 	ps := c.Prog.Cfg.PageSize
@@ -277,6 +319,9 @@ func (cs corruptsim) runMeta(c *Case, dir string, img []byte, e *work.Exec, out 
 				r.CheckContent("read-write open of the damaged file")
 				r.RunTx(&work.Txn{Mode: "update", End: "commit", Ops: []work.Op{{Kind: "mkbi", Key: "after-damage"}, {Kind: "nextseq", Path: []string{"after-damage"}}}})
 				r.FileChecks = true
+				// (in a hot backup the meta slots do not follow the txid parity: the first commit may go to the
+				// slot of the intact meta and leave the damaged one as it is)
+				r.AllowInvalidMeta = c.Params["backup_source"] == 1
 				if !r.Failed() {
 					r.CheckFile("commit after damage")
 				}
